@@ -134,7 +134,9 @@ def gen_cells(rng, kind, dtype, nr, nc, ws=None):
             cid[0] += 1
             if dtype == "float":
                 return None if rng.chance(0.12) else cid[0] + 0.5
-            return -1 if rng.chance(0.1) else cid[0]
+            if rng.chance(0.1):
+                return -1
+            return -cid[0] if rng.chance(0.08) else cid[0]
         return [[[scalar() for _ in range(w)] for w in ws] for _ in range(nr)]
     if kind == "dense":
         cid = [start]
@@ -145,7 +147,11 @@ def gen_cells(rng, kind, dtype, nr, nc, ws=None):
                 return None if rng.chance(0.1) else cid[0] + 0.5
             return cid[0]
         return [[[scalar1()] for _ in range(nc)] for _ in range(nr)]
-    return R.gen_cells(rng, kind, dtype, nr, nc, start_id=start, all_empty=rng.chance(0.05))
+    cells = R.gen_cells(rng, kind, dtype, nr, nc, start_id=start, all_empty=rng.chance(0.05))
+    if dtype == "int":
+        # ordinary negative values next to the missing marker -1 (ids stay unique)
+        cells = [[[(-x if (x > 1 and rng.chance(0.08)) else x) for x in c] for c in row] for row in cells]
+    return cells
 
 
 def with_selection(rng, ctx, node, bases, dims=(0, 1), p=0.4, steps=(1, 2)):
@@ -398,7 +404,7 @@ def small_scope(tier):
 
 
 def generate(rng, tier):
-    n = 1500 if tier == "quick" else 40000
+    n = 2000 if tier == "quick" else 30000
     cases = [gen_case(rng, tier) for _ in range(n)]
     if tier == "thorough":
         cases += small_scope(tier)
@@ -817,20 +823,40 @@ def _subnodes(node):
     return []
 
 
-def shrink_node(node):
+def shrink_node(node, case=None):
     """smaller variants of a node"""
     t = node["t"]
     if t in ("sel", "fill", "clone"):
         yield node["s"]
-        for v in shrink_node(node["s"]):
+        if t == "fill":
+            for j in {0, node["col"] - 1} - {node["col"], -1}:
+                yield dict(node, col=j)
+            sub = node["s"]
+            if sub["t"] == "base":
+                cells = sub["cells"]
+                if cells and all(len(r) == len(cells[0]) for r in cells):
+                    for k in range(len(cells[0])):        # drop another column, keep pointing at the same one
+                        if k != node["col"] and len(cells[0]) > 1:
+                            yield dict(node, s=dict(sub, cells=[r[:k] + r[k + 1:] for r in cells]),
+                                       col=node["col"] - (1 if k < node["col"] else 0))
+            elif case is not None:
+                try:                                       # the operand as a literal container
+                    st = ref_eval(sub, case["bases"], "x", case)
+                    if st["nr"] >= 1 and st["nc"] >= 1:
+                        yield dict(node, s={"t": "base", "cells": st["cells"]})
+                except RefReject:
+                    pass
+        for v in shrink_node(node["s"], case):
             yield dict(node, s=v)
     elif t == "cat":
         xs = node["xs"]
+        for x in xs:
+            yield x
         for k in range(len(xs)):
             if len(xs) > 1:
                 yield dict(node, xs=xs[:k] + xs[k + 1:])
         for k in range(len(xs)):
-            for v in shrink_node(xs[k]):
+            for v in shrink_node(xs[k], case):
                 yield dict(node, xs=xs[:k] + [v] + xs[k + 1:])
         if node["dim"] < 0:
             yield dict(node, dim=node["dim"] + 3)
@@ -854,13 +880,31 @@ def shrink(case):
     if "whole" in case:
         c2 = {k: v for k, v in case.items() if k != "whole"}
         yield c2
-    for v in shrink_node(case["expr"]):
+    for v in shrink_node(case["expr"], case):
         c2 = {k: val for k, val in case.items() if k != "whole"}
         c2["expr"] = v
         yield c2
-    for bi, cells in enumerate(case["bases"]):
-        # inline a shared base so that it can be shrunk
-        pass
+    # inline a shared base so that it can be shrunk
+    for bi in range(len(case["bases"])):
+        if _uses_ref(case["expr"], bi):
+            c2 = {k: val for k, val in case.items() if k != "whole"}
+            c2["expr"] = _inline_ref(case["expr"], bi, case["bases"][bi])
+            yield c2
+
+
+def _uses_ref(node, k):
+    return any(n["t"] == "ref" and n["k"] == k for n in _walk(node))
+
+
+def _inline_ref(node, k, cells):
+    t = node["t"]
+    if t == "ref":
+        return {"t": "base", "cells": cells} if node["k"] == k else node
+    if t in ("sel", "fill", "clone"):
+        return dict(node, s=_inline_ref(node["s"], k, cells))
+    if t == "cat":
+        return dict(node, xs=[_inline_ref(x, k, cells) for x in node["xs"]])
+    return node
 
 
 # ------------------------------------------------------ evidence helpers
